@@ -299,7 +299,13 @@ def options_term(E, d):
     if not items:
         return EMPTY_KW
     f = z3.Function('options_' + '_'.join(k for k, _ in items), *([ValSort] * len(items) + [ValSort]))
-    return f(*terms)
+    t = f(*terms)
+    seen = E.st.ghost.setdefault('options_not_none', set())
+    if t.get_id() not in seen:
+        seen.add(t.get_id())
+        E.assumptions_quant(t != grid.NONE_OPTS)           # a dictionary is not None
+        E.qf.add(t != grid.NONE_OPTS)
+    return t
 
 
 def _as_optdict(E, v):
